@@ -395,7 +395,7 @@ def part_repr(i, r, case, pats=None):
         for sem in ('real', 'log', 'viterbi', 'bool'):
             S = IR.semiring(sem, 'float64')
             zero = S.from_int(0).item()
-            for da, db in ((zero, zero), ((5. if sem != 'bool' else True), zero)):
+            for da, db in ((zero, zero), ((5. if sem != 'bool' else True), zero)) + (((inf, zero), (zero, inf)) if sem != 'bool' else ()):
                 key = (case, pa, pb, sem, da, db)
                 try:
                     if sem == 'bool':
@@ -406,15 +406,15 @@ def part_repr(i, r, case, pats=None):
                         a = P.instantiate(pa, da)
                         b = P.instantiate(pb, db, offset=3)
                         if sem != 'real':
-                            a = PatternedTensor(a.physical.log(), a.paxes, a.vaxes, da if da == zero else math.log(da))
-                            b = PatternedTensor(b.physical.log(), b.paxes, b.vaxes, db)
+                            a = PatternedTensor(a.physical.log(), a.paxes, a.vaxes, da if da in (zero, inf) else math.log(da))
+                            b = PatternedTensor(b.physical.log(), b.paxes, b.vaxes, db)      # db is the semiring zero or inf
                     A, B = a.to_dense(), b.to_dense()
                     variants = [('', a, b, A, B)]
                     if a.ndim == 2:
                         variants += [('row-left ', a[0], b, A[0], B), ('row-right ', a, b[0], A, B[0])]
                     for opn, (vn, aa, bb, AA, BB) in itertools.product(('add', 'mul', 'sub'), variants):
-                        if vn and sem == 'bool' and False:
-                            continue
+                        if opn == 'sub' and db == inf and sem != 'real':
+                            continue     # sub is stated for y <= x only; a default of +inf on the right is outside it (math.log1p(-inf))
                         got = getattr(S, opn)(aa, bb).to_dense()
                         want = getattr(S, opn)(AA.clone(), BB.clone())
                         opn = vn + opn
